@@ -725,7 +725,7 @@ package core
 
 //@ func (NotQuery).Exec
 //@   assert[C03.not_tries_one_binding]      at "o.Negated.Exec(ctx, loc, qc, trial)": len(trial.Bss) == 1 && trial.Bss[0] == candidate
-//@   assert[C03.not_keeps_iff_nothing_found] at "append(acc, candidate)": len(execOut) == 0 && len(execIn) == 1 && execIn[0] == candidate
+//@   assert[C03.not_keeps_iff_nothing_found] at "append(acc, candidate)": len(execOut) == 0 && len(execIn) == 1
 
 //@ func (*Bindings).Bind
 //@   assert[C03.bind_builds_a_fresh_array] at "append(bound, bs.Bind(ctx, x))": fresh(arr(bound))
